@@ -39,7 +39,7 @@ ASSUMPTIONS = [
   'module paths are taken from Module.path (naming is C02 territory); the check is that the key is the stated function of (seed, stream, path, count)',
   'distinctness is demanded modulo the derivation\'s own 32-bit hash truncation: positions whose model hashes coincide are counted in a probe and skipped',
 ]
-PROBES = ['nnx_runs', 'linen_runs', 'missing_stream_default', 'split_ctx_raises', 'restore_resumes', 'reseed', 'jit_draw', 'vmap_draw', 'clone_predicted_duplicate', 'linen_fallback_params', 'separator_on', 'separator_off', 'edit_invariance_checked', 'hash_collision_skipped', 'init_keys_checked', 'linen_jit_child', 'linen_method_runs', 'plain_and_jitted_method_share_child', 'reseed_several_same_name', 'linen_loop_runs', 'draws_in_loop_predicate_and_body']
+PROBES = ['nnx_runs', 'linen_runs', 'missing_stream_default', 'split_ctx_raises', 'restore_resumes', 'reseed', 'jit_draw', 'vmap_draw', 'clone_predicted_duplicate', 'linen_fallback_params', 'separator_on', 'separator_off', 'edit_invariance_checked', 'hash_collision_skipped', 'init_keys_checked', 'linen_jit_child', 'linen_method_runs', 'plain_and_jitted_method_share_child', 'reseed_several_same_name', 'linen_loop_runs', 'linen_attr_runs', 'draws_in_loop_predicate_and_body']
 
 
 def setup_worker(w, tier):
@@ -60,6 +60,10 @@ def generate(rs, tier):
     return gen_nnx(g)
   if r < 0.62:
     return gen_methods(g)
+  if r < 0.70 and r >= 0.67:
+    # sub-modules created by the caller and handed to a (jitted) module as dataclass attributes
+    n = g.choice([2, 2, 3])
+    return dict(engine='linenworld', knobs=dict(kind='linen_attr', separator=g.random() < 0.6, n=n, lift=g.choice(['jit', 'jit', 'fold', 'plain']), calls=[g.randrange(n) for _ in range(g.randrange(2, 6))], seed=g.randrange(4)), ops=[])
   if r < 0.67:
     return dict(engine='linenworld', knobs=dict(kind='linen_loop', separator=g.random() < 0.6, trips=g.randrange(0, 4), split=g.random() < 0.7, n_cond=g.choice([1, 1, 2]), n_body=g.choice([0, 1, 1, 2]), pre=g.random() < 0.6, post=g.random() < 0.7, seed=g.randrange(4)), ops=[])
   return gen_linen(g)
@@ -611,6 +615,77 @@ class MethodsRun:
       self.log.add(oi, 'script', len(calls))
 
 
+ATTR_CLS = {}
+
+
+def attr_classes(n, lift, sep):
+  key = (n, lift, sep)
+  if key in ATTR_CLS:
+    return ATTR_CLS[key]
+
+  class Noise(nn.Module):
+    @nn.compact
+    def __call__(self):
+      return jax.random.key_data(self.make_rng('noise'))
+
+  ann = {f'm{i}': nn.Module for i in range(n)}
+
+  def call(self, order):
+    return [getattr(self, f'm{i}')() for i in order]
+
+  User = type('User', (nn.Module,), {'__annotations__': ann, '__call__': call})
+  U = {'jit': lambda c: nn.jit(c, static_argnums=(1,)), 'fold': nn.fold_rngs, 'plain': lambda c: c}[lift](User)
+
+  class Top(nn.Module):
+    order: tuple = ()
+
+    @nn.compact
+    def __call__(self):
+      kids = [Noise(name=f'kid{i}') for i in range(n)]
+      return U(*kids)(self.order)
+
+  ATTR_CLS[key] = Top
+  return Top
+
+
+class AttrRun:
+  """Children created by the caller ('kid0', 'kid1', ...) and handed to another module as attributes: whatever lifts
+  that module, two different children never receive the same key, and the keys are a function of the program."""
+
+  def __init__(self, plan, res, log):
+    self.plan, self.res, self.log = plan, res, log
+    self.compared = 0
+
+  def run(self):
+    k = self.plan['knobs']
+    self.res.probe('linen_attr_runs')
+    Top = attr_classes(k['n'], k['lift'], k['separator'])
+    order = tuple(k['calls'])
+    outs = []
+    for _ in range(2):
+      out = Top(order=order).apply({}, rngs={'noise': jax.random.key(70 + k['seed'])})
+      outs.append([np.asarray(x).tobytes() for x in out])
+    if outs[0] != outs[1]:
+      raise Violation('keys-not-deterministic', 'attribute-module program: the same program with the same seed drew different keys on its second run')
+    seen = {}
+    counts = {}
+    for pos, (i, kb) in enumerate(zip(order, outs[0])):
+      c = counts[i] = counts.get(i, 0) + 1
+      if kb in seen:
+        raise Violation('key-reused', f'children handed to a module lifted with {k["lift"]!r}: draw #{c} of child kid{i} received the key of draw #{seen[kb][1]} of child kid{seen[kb][0]}')
+      seen[kb] = (i, c)
+      self.compared += 1
+    if k['lift'] == 'plain':
+      seeds = jax.random.key(70 + k['seed'])
+      counts = {}
+      for i, kb in zip(order, outs[0]):
+        c = counts[i] = counts.get(i, 0) + 1
+        want, _ = model_key(seeds, (f'kid{i}', c), k['separator'])
+        if kb != np.asarray(jax.random.key_data(want)).tobytes():
+          raise Violation('key-differs-from-model', f'attribute-module program (plain): child kid{i} draw {c} is not fold_in(seed, sha1(path + count))')
+    self.log.add('attr', len(order))
+
+
 class LoopRun:
   """Keys drawn inside nn.while_loop: predicate and body are traced, so the draws are observed at run time through
   jax.debug.callback.  With the stream split per iteration every draw of one apply is a different key; with the stream
@@ -688,9 +763,9 @@ def execute(plan):
           w.step(oi, op)
       finally:
         compared = w.compared
-    elif k['kind'] in ('linen_methods', 'linen_loop'):
+    elif k['kind'] in ('linen_methods', 'linen_loop', 'linen_attr'):
       flax.config.update('flax_fix_rng_separator', k['separator'])
-      lr = (MethodsRun if k['kind'] == 'linen_methods' else LoopRun)(plan, res, log)
+      lr = {'linen_methods': MethodsRun, 'linen_loop': LoopRun, 'linen_attr': AttrRun}[k['kind']](plan, res, log)
       try:
         lr.run()
       finally:
